@@ -169,8 +169,18 @@ def handleC08 (j : Json) : Except String Verdict := do
       (tags : List String) : Except String Verdict := do
     if !pre then return { agree := true, spec := true, tags := ["OUT_OF_MODEL"] }
     let re := reJ.isSome
-    let mj := match model with | some o => o.toJson re | none => errJson
-    let sj := match spec with | some o => o.toJson re | none => errJson
+    -- tensor-level splits: the rank ids of the result (the split rank, then for a re-split rank 1)
+    let idsJ : List (String × Json) := match (j.getObjVal? "ids0").toOption.bind (fun v => v.getArr?.toOption) with
+      | some arr =>
+        let ids0 := arr.toList.filterMap (fun x => x.getStr?.toOption)
+        let ids1 := splitRankIds ids0 k
+        [("ids", jList ((if re then splitRankIds ids1 1 else ids1).map Json.str))]
+      | none => []
+    let withIds (o : Json) : Json := match o with
+      | Json.obj _ => idsJ.foldl (fun acc kv => acc.setObjVal! kv.1 kv.2) o
+      | _ => o
+    let mj := match model with | some o => withIds (o.toJson re) | none => errJson
+    let sj := match spec with | some o => withIds (o.toJson re) | none => errJson
     let specOk := impl == sj && chunk
     let why := if impl == sj then (if chunk then "" else "chunks") else s!"expected {sj.compress}"
     let agree := impl == mj
@@ -189,7 +199,9 @@ def handleC08 (j : Json) : Except String Verdict := do
       let m := modelF s act dflt d t
       let tags := branchTags s a (presentFmt s.fmtU dflt d a.1 a.2 t) m ++ (if s.fmtU then ["fmtU"] else [])
       let chunk := match obsAt act d (chunkF s act dflt d) 0 t with
-        | some o => impl == o.toJson false
+        | some o => (impl.getObjVal? "tree").toOption == some o.tree &&
+                    (impl.getObjVal? "uact").toOption == some (jList o.uact) &&
+                    (impl.getObjVal? "lact").toOption == some (jList o.lact)
         | none => true
       finish pre (obsAt act d (modelF s act dflt d) 0 t) (obsAt act d (specF s act dflt d) 0 t) chunk tags
     | some rj =>
